@@ -147,6 +147,92 @@ def session_events(args):
     return out, exc, established, broken
 
 
+def big_update(k: int, size: int = 4096) -> tuple:
+    """An UPDATE of `size` octets announcing as many /32 as fit, all different from one UPDATE to the next."""
+    attrs = [w.encode_attr(w.ORIGIN, b'\x00'), w.encode_attr(w.AS_PATH, w.encode_as_path([(2, [65002])], True)),
+             w.encode_attr(w.NEXT_HOP, bytes([10, 9, 9, 9]))]
+    room = size - 19 - 4 - sum(len(a) for a in attrs)
+    nlri = [w.nlri_ip(1, 1, f'100.{k}.{i >> 8}.{i & 255}', 32) for i in range(room // 5)]
+    return w.encode_update(attrs=attrs, nlri=nlri), {f'100.{k}.{i >> 8}.{i & 255}/32' for i in range(room // 5)}
+
+
+def slow_helper(args):
+    """(D) the helper program does not read its pipe while the peer sends `n` maximum-size UPDATEs (their event lines
+    outgrow the 64 KiB pipe), then reads everything: every record must still arrive exactly once, whole and in order."""
+    version, encoder, n = args
+    viols = []
+    with World(world_cfg(encoder), env={'api.version': version}) as wd:
+        env = c05.Env(wd, hold=30, script=[], config_name='active')
+        for i in range(12):
+            env.step = i
+            a = env.default_action()
+            if a == 'time' and env.fsm() == 'ESTABLISHED':
+                break
+            env.do(a)
+        wd.advance(0.3)
+        if env.fsm() != 'ESTABLISHED':
+            raise core.HarnessError('slow helper: session not established')
+        before = len(wd.api_output())
+        wd.reader_paused = True
+        sent = []
+        s = env.current()
+        for k in range(n):
+            body, prefixes = big_update(k)
+            sent.append(prefixes)
+            env.remote(s).send(w.UPDATE, body)
+            wd.settle()
+            wd.advance(0.2)
+        # now the helper reads, a pipe-full at a time, the daemon flushing what it still holds in between
+        out = b''
+        for _ in range(400):
+            chunk = wd.api_output()[before + len(out):]
+            out += chunk
+            wd.settle()
+            wd.advance(0.1)
+            if not chunk and not wd.reactor.processes.has_pending_writes() if hasattr(wd.reactor.processes, 'has_pending_writes') else not chunk:
+                break
+        wd.reader_paused = False
+        exc = wd.loop_exceptions()
+        fsm = env.fsm()
+    tag = f'{encoder}-v{version}'
+    text = out.decode('utf-8', 'replace')
+    lines = [ln for ln in text.split('\n') if ln]
+    if text and not text.endswith('\n'):
+        viols.append((f'slow-helper:{tag}:last-record-incomplete', f'the stream read by the helper ends in the middle of a record ({len(lines[-1])} octets)'))
+    if exc:
+        viols.append((f'slow-helper:{tag}:loop-exception', exc[0][:200]))
+    if encoder == 'json':
+        got = []
+        for ln in lines:
+            obj, probs = judge_json_line(ln)
+            if probs:
+                viols.append((f'slow-helper:{tag}:{probs[0].split(":")[0]}', f'{probs[0][:120]} in a line of {len(ln)} octets starting {ln[:60]!r}'))
+                continue
+            if isinstance(obj, dict) and obj.get('type') == 'update':
+                ann = obj.get('neighbor', {}).get('message', {}).get('update', {}).get('announce', {}).get('ipv4 unicast', {})
+                got.append({(r.get('nlri') if isinstance(r, dict) else r) for rs in ann.values() for r in (rs if isinstance(rs, list) else [rs])})
+        if not viols and got != sent:
+            viols.append((f'slow-helper:{tag}:records-differ', f'{n} UPDATEs sent, {len(got)} update events read; sizes {[len(x) for x in got]} expected {[len(x) for x in sent]}'))
+    else:
+        ups = [ln for ln in lines if ' announced ' in ln or ' update ' in ln]
+        if CTRL.search(text.replace('\n', '')):
+            viols.append((f'slow-helper:{tag}:control-character', 'control character in the stream read by the helper'))
+        seen = [p for ln in lines for p in re.findall(r'100\.\d+\.\d+\.\d+/32', ln)]
+        want = sorted(p for ps in sent for p in ps)
+        if sorted(seen) != want:
+            viols.append((f'slow-helper:{tag}:records-differ', f'{len(want)} prefixes announced by the peer, {len(seen)} in the text events read ({len(set(seen))} distinct)'))
+    return _uniq13(viols), (tag, n, len(lines), fsm)
+
+
+def _uniq13(viols):
+    seen, out = set(), []
+    for sg, wh in viols:
+        if sg not in seen:
+            seen.add(sg)
+            out.append((sg, wh))
+    return out
+
+
 def run_injection(args):
     field, hname, version, encoder = args
     viols = []
@@ -353,7 +439,7 @@ def update_worker(args):
 def run(ctx: core.Ctx) -> None:
     inj = [(f, h, v, e) for f in FIELDS for h in HOSTILE if h != 'benign' for v, e in ENCODERS]
     ctx.rule = (f'(A) {len(FIELDS)} peer-chosen string fields x {len(HOSTILE) - 1} hostile payloads x 3 encoders (JSON v6, JSON v4, text v4), each a full session in the virtual world compared with the same session carrying a benign string; '
-                '(B) every decodable UPDATE of the C02 enumeration (4 sessions) and of the C08 malformed-attribute neighbourhood rendered by the 3 encoders and written through Processes.write; (C) every UPDATE of the frozen C03 seed corpus (every registered family, attribute, BGP-LS / SR / prefix-SID / tunnel TLV recorded in the QA data of the repository) and every member of the C15 attribute corpus, decoded on a session with every family negotiated (ASN4 on / off) and rendered the same way; non-trivial = every (field, payload, encoder) and every rendered event')
+                '(B) every decodable UPDATE of the C02 enumeration (4 sessions) and of the C08 malformed-attribute neighbourhood rendered by the 3 encoders and written through Processes.write; (C) every UPDATE of the frozen C03 seed corpus (every registered family, attribute, BGP-LS / SR / prefix-SID / tunnel TLV recorded in the QA data of the repository) and every member of the C15 attribute corpus, decoded on a session with every family negotiated (ASN4 on / off) and rendered the same way; (D) a helper that does not read its pipe while the peer sends 1, 2, 3, 5 maximum-size UPDATEs (event lines outgrowing the 64 KiB pipe), then reads everything: every record exactly once, whole, in order, for the three encoders; non-trivial = every (field, payload, encoder) and every rendered event')
     ctx.assumptions += ['strict JSON: json.loads with a duplicate-key-rejecting hook; one event = one line', 'structure (keys, nesting, value kinds) must equal that of the benign run']
     pool = mp.Pool(min(16, os.cpu_count() or 1))
     try:
@@ -372,6 +458,13 @@ def run(ctx: core.Ctx) -> None:
             ctx.count('nontrivial', res['events'])
             for sig, (what, case, _) in res['viol'].items():
                 ctx.violation(sig, what, case)
+        sjobs = [(v, e, n) for v, e in ENCODERS for n in (1, 2, 3, 5)]
+        for job, (viols, outcome) in zip(sjobs, pool.map(slow_helper, sjobs)):
+            ctx.count('executions')
+            ctx.count('nontrivial')
+            ctx.add_to_set('outcomes', outcome)
+            for sig, what in viols:
+                ctx.violation(sig, what, {'kind': 'slow', 'version': job[0], 'encoder': job[1], 'n': job[2]})
         cjobs = [(asn4, sh, 8) for asn4 in (True, False) for sh in range(8)]
         for res in pool.imap_unordered(corpus_worker, cjobs):
             ctx.count('executions', res['exec'])
@@ -389,6 +482,9 @@ def run(ctx: core.Ctx) -> None:
 
 
 def replay(case):
+    if case['kind'] == 'slow':
+        viols, o = slow_helper((case['version'], case['encoder'], case['n']))
+        return [{'signature': s_, 'what': wh} for s_, wh in viols]
     if case['kind'] == 'inject':
         viols, o = run_injection((case['field'], case['payload'], case['version'], case['encoder']))
         return [{'signature': s, 'what': wh} for s, wh in viols]
